@@ -69,6 +69,11 @@ func init() {
 				}
 			}
 			for su := 0; su < 9; su++ {
+				// the session's last command, Close Session: its authentic answer is a refusal
+				// (0x87), the forgeries say "closed"
+				cs = append(cs, ev.MkCase("batch", c04Batch{Suite: su, Cmd: "close", What: "catalogue", Seed: seed}))
+				cs = append(cs, ev.MkCase("batch", c04Batch{Suite: su, Cmd: "close", What: "truncs", Seed: seed}))
+				cs = append(cs, ev.MkCase("batch", c04Batch{Suite: su, Cmd: "close", What: "flips/3", Seed: seed}))
 				for _, cmd := range []string{"guid", "devid", "chassis"} {
 					cs = append(cs, ev.MkCase("batch", c04Batch{Suite: su, Cmd: cmd, What: "catalogue", Seed: seed}))
 					cs = append(cs, ev.MkCase("batch", c04Batch{Suite: su, Cmd: cmd, What: "truncs", Seed: seed}))
@@ -134,7 +139,12 @@ func c04Run(run *ev.Run, o c04One) {
 	e := NewEnv(cfg, memtr.Window)
 	authBody := map[string][]byte{"guid": rbytes(r, 16), "devid": {0x20, 0x81, 0x03, 0x15, 0x02, 0xbf, 0x57, 0x01, 0x00, 0x34, 0x12, 1, 2, 3, 4}, "chassis": nil}[o.Cmd]
 	forgedBody := map[string][]byte{"guid": rbytes(r, 16), "devid": {0x21, 0x01, 0x09, 0x99, 0x51, 0x00, 0x11, 0x22, 0x33, 0x78, 0x56, 9, 9, 9, 9}, "chassis": nil}[o.Cmd]
-	e.BMC.Handler = func(ev *refbmc.Event) (byte, []byte, bool) { return 0, authBody, true }
+	e.BMC.Handler = func(ev *refbmc.Event) (byte, []byte, bool) {
+		if o.Cmd == "close" && ev.NetFn == 6 && ev.Cmd == 0x3c {
+			return 0x87, nil, true
+		}
+		return 0, authBody, true
+	}
 	ctx, cancel := e.LimitCtx(20)
 	sess, err := e.OpenSession(ctx, su)
 	cancel()
@@ -150,6 +160,9 @@ func c04Run(run *ev.Run, o c04One) {
 		e.BMC.Handler = func(ev *refbmc.Event) (byte, []byte, bool) {
 			if ev.NetFn == 6 && ev.Cmd == 0x38 {
 				return 0, []byte{0x01, 0xb7, 0x1f, 0x03, 0xaa, 0xbb, 0xcc, 0xdd}, true
+			}
+			if o.Cmd == "close" && ev.NetFn == 6 && ev.Cmd == 0x3c {
+				return 0x87, nil, true
 			}
 			return 0, authBody, true
 		}
@@ -198,8 +211,27 @@ func c04Run(run *ev.Run, o c04One) {
 		case "chassis":
 			cmd := &ipmi.ChassisControlCmd{Req: ipmi.ChassisControlReq{ChassisControl: ipmi.ChassisControlPowerOn}}
 			code, err = sess.SendCommand(cctx, cmd)
+		case "close":
+			err = sess.Close(cctx)
 		}
 	})
+	if o.Cmd == "close" {
+		// the authentic answer is a refusal, so Close can only report success off a forgery
+		run.Eval(1)
+		desc := fmt.Sprintf("suite %v Close() forgery %s/%d forever=%v caps-first=%v", su, o.Kind, o.Arg, o.Forever, capsFirst)
+		if pv != nil {
+			run.Violation("C04:panic:"+panicSite(stk), fmt.Sprintf("%s: panic %v\n%s", desc, pv, trimStack(stk)), cs, nil)
+			return
+		}
+		if forgedDelivered > 0 || skip {
+			run.Nontrivial(desc)
+			run.Event("forged-datagrams-delivered", forgedDelivered)
+		}
+		if err == nil && !(o.Kind == "flip" && o.Arg < 32) {
+			run.Violation("C04:accepted-forgery:close:"+o.Kind, fmt.Sprintf("%s: Close reported success although the BMC's authentic answer is completion code 0x87 (forged datagram %x)", desc, forgedBytes), cs, nil)
+		}
+		return
+	}
 	if skip && o.Kind == "baseline-authentic-only" {
 		run.Eval(1)
 		run.Nontrivial(fmt.Sprintf("suite %v cmd %s baseline caps-first %v", su, o.Cmd, capsFirst))
